@@ -597,9 +597,11 @@ fn remove_file_db(p: &std::path::Path) {
     }
 }
 
+/// Dump of a database file with freshly drawn identifiers normalised (two runs of the same
+/// operation in different processes draw different account UUIDs).
 fn dump_file(path: &std::path::Path) -> Result<Dump, String> {
     let c = rusqlite::Connection::open(path).map_err(|e| e.to_string())?;
-    dump::dump(&c, false).map_err(|e| e.to_string())
+    dump::dump(&c, true).map_err(|e| e.to_string())
 }
 
 struct ChildOutcome {
@@ -653,7 +655,7 @@ impl Explorer<'_> {
         if wal {
             let _ = sc.w.db.conn().execute_batch("PRAGMA wal_checkpoint(TRUNCATE)");
         }
-        let dump_s = dump::dump(sc.w.db.conn(), false).expect("dump");
+        let dump_s = dump::dump(sc.w.db.conn(), true).expect("dump");
         let dir = master.parent().unwrap().to_path_buf();
         let scratch = dir.join(format!("c02-crash-{}-{}-{}.sqlite", std::process::id(), idx, rng.r#gen::<u32>()));
         // dry run in a child
@@ -768,7 +770,8 @@ vs op(S): {}", dump::diff(&dump_s, &d), dump::diff(&dump_1, &d)), sc, op, json!(
         let _: String = sc.w.db.conn().query_row(&format!("PRAGMA journal_mode={}", if wal { "WAL" } else { "DELETE" }), [], |r| r.get(0)).unwrap_or_default();
         let read = |sc: &Scenario| -> String {
             format!("{:?}", sc.w.db.get_wallet_summary(ConfirmationsPolicy::MIN).map(|s| s.map(|s| {
-                let mut v: Vec<String> = s.account_balances().iter().map(|(k, b)| format!("{k:?}={b:?}")).collect();
+                // balances without the (freshly drawn) account identifiers
+                let mut v: Vec<String> = s.account_balances().values().map(|b| format!("{b:?}")).collect();
                 v.sort();
                 (v, s.chain_tip_height(), s.fully_scanned_height())
             })))
@@ -803,7 +806,7 @@ vs op(S): {}", dump::diff(&dump_s, &d), dump::diff(&dump_1, &d)), sc, op, json!(
                 return;
             }
             format!("{:?}", wdb.get_wallet_summary(ConfirmationsPolicy::MIN).map(|s| s.map(|s| {
-                let mut v: Vec<String> = s.account_balances().iter().map(|(k, b)| format!("{k:?}={b:?}")).collect();
+                let mut v: Vec<String> = s.account_balances().values().map(|b| format!("{b:?}")).collect();
                 v.sort();
                 (v, s.chain_tip_height(), s.fully_scanned_height())
             })))
